@@ -1,9 +1,11 @@
-"""Layer 2 contracts: Circuit.copy (proved on the body) and Circuit.add_subcircuit.
+"""Layer 2 contracts: Circuit.copy, Circuit.add_subcircuit, Circuit.add_blackbox.
 
-add_subcircuit: its contract below is ASSUMED by the proofs that use it (tx.miter, logic.full_adder, ...): the body
-(dict-building loop, nx.relabel_nodes, DiGraph.update, try/except rollback) is not yet verified against it.  The
-same contract text is exactly what the bounded check C06 compares the real function with (bounded/c06.py builds the
-expected composite from these clauses), so the assumption is tested, not proved.  Evidence files list it as assumed."""
+add_subcircuit: the body (dict-building loop, nx.relabel_nodes, DiGraph.update, strip loops, registry loop,
+try/except rollback) is verified against the contract below in pyvc/tasks_l2.py for calls with no connection or one
+connection (symbolic or literal instance name, strip_io True/False).  For calls with two or more connections the
+contract is ASSUMED (recorded through models.used); the same clauses are what the bounded check C06 compares the
+real function with.
+add_blackbox: body verified against the contract for calls without connections (pyvc/tasks_l2.py)."""
 import z3
 
 from pyvc.engine import NONE, BBDict, CircuitRec, DictV, Graph, NameV, ObjRef, StrLit, Unsupported, alloc
@@ -40,7 +42,6 @@ def prefix_fn(ex, name):
 
 def s_add_subcircuit(ex, st, recv, args, kw, e):
     ctx = ex.ctx
-    models.used("Circuit.add_subcircuit [ASSUMED contract]")
     names = ["sc", "name", "connections", "strip_io"]
     a = dict(zip(names, args))
     a.update(kw)
@@ -65,6 +66,8 @@ def s_add_subcircuit(ex, st, recv, args, kw, e):
         if conns.items is None:
             raise Unsupported("add_subcircuit with a symbolic connection dict (variant not under contract)")
         items = conns.items
+        if len(items) >= 2:
+            models.used("Circuit.add_subcircuit with >= 2 connections [ASSUMED contract; body proved for 0 and 1 connection]")
         for k, _ in items:
             ex.split_raise(st, z3.Not(z3.Or(is_in(k), is_out(k))), "ValueError")
     img = lambda t: z3.And(t == pre(unpre(t)), gs.node(unpre(t)))  # t is the copy of a node of sc
@@ -102,4 +105,52 @@ def s_add_subcircuit(ex, st, recv, args, kw, e):
     return NONE
 
 
-SUMMARIES = {"Circuit.copy": s_copy, "Circuit.add_subcircuit": s_add_subcircuit}
+def pin_fn(ex, name):
+    """n |-> f"{name}.{n}" (the 2-hole template also used by the registry clause of `wired`)"""
+    f = ex.ctx.template(("", ".", ""))
+    nm = ex.name_term(name)
+    return lambda n: f(nm, n)
+
+
+def s_add_blackbox(ex, st, recv, args, kw, e):
+    """add_blackbox(blackbox, name) without connections: all-or-nothing.
+    ValueError iff the instance name is taken, a pin node name is taken, a pin name is both an input and an output
+    of the blackbox (the second `add` is rejected), or a pin node name is rejected by `add` (empty / leading digit).
+    Otherwise: one node name.pin per pin, typed bb_input / bb_output, not an output, no edges; registry[name] = blackbox."""
+    ctx = ex.ctx
+    a = dict(zip(["blackbox", "name", "connections"], args))
+    a.update(kw)
+    b, name = a["blackbox"], a["name"]
+    conns = a.get("connections", NONE)
+    if conns is not NONE:
+        raise Unsupported("add_blackbox with connections (variant not under contract)")
+    T = ctx.tval
+    g, bb = st.g(recv), st.bb(recv)
+    pin = pin_fn(ex, name)
+    nm = ex.name_term(name)
+    x = ctx.fresh_name("bx")
+    i_ = lambda n: ctx.bb_in(b.term, n)
+    o_ = lambda n: ctx.bb_out(b.term, n)
+    io = lambda n: z3.Or(i_(n), o_(n))
+    ex.split_raise(st, z3.Select(bb.dom, nm), "ValueError")
+    ex.split_raise(st, z3.Exists([x], z3.And(io(x), g.node(pin(x)))), "ValueError")
+    ex.split_raise(st, z3.Exists([x], z3.And(i_(x), o_(x))), "ValueError")
+    ex.split_raise(st, z3.Exists([x], z3.And(io(x), z3.Or(ex.str_empty(pin(x)), ex.starts_digit(pin(x))))), "ValueError")
+    unpin = ctx.template_inverse[("", ".", "")]
+    img = lambda t: z3.And(t == pin(unpin(nm, t)), io(unpin(nm, t)))
+    N = models.define_set(ex, st, lambda t: z3.Or(g.node(t), img(t)), "N")
+    hasty = models.define_set(ex, st, lambda t: z3.Or(z3.Select(g.hasty, t), img(t)), "hasty")
+    hasout = models.define_set(ex, st, lambda t: z3.Or(z3.Select(g.hasout, t), img(t)), "hasout")
+    ty = ctx.fresh("ty", g.ty.sort())
+    out = ctx.fresh("out", g.out.sort())
+    t_ = ctx.fresh_name("dt")
+    for ax in (z3.ForAll([t_], z3.Select(ty, t_) == z3.If(img(t_), z3.If(i_(unpin(nm, t_)), T["bb_input"], T["bb_output"]), z3.Select(g.ty, t_))),
+               z3.ForAll([t_], z3.Select(out, t_) == z3.If(img(t_), False, z3.Select(g.out, t_)))):
+        ctx.def_ids.add(ax.get_id())
+        st.pc.append(ax)
+    st.set_g(recv, Graph(N, hasty, ty, hasout, out, g.FI))
+    st.set_bb(recv, BBDict(z3.Store(bb.dom, nm, True), z3.Store(bb.val, nm, b.term)))
+    return NONE
+
+
+SUMMARIES = {"Circuit.add_blackbox": s_add_blackbox, "Circuit.copy": s_copy, "Circuit.add_subcircuit": s_add_subcircuit}
